@@ -36,11 +36,18 @@ fn gen(t: &mut Tape, tier: Tier) -> Scenario {
     let len: usize = if t.below(big_every) == 0 {
         [65535usize, 65536, 65537, 131072, 196608, 131071, 65536 + 4096][t.below(7) as usize]
     } else {
-        match t.below(8) {
+        match t.below(9) {
             0 => 0,
             1 => 1,
             2 => t.range(2, 16) as usize,
             3 => t.range(1000, 6000) as usize,
+            // where the integers of the xz index change width (7-bit groups): 2^7, 2^14
+            // (and 2^21, rarely: the encoder then handles 2 MiB)
+            8 => match t.below(if tier == Tier::Thorough { 12 } else { 40 }) {
+                0 => ((1usize << 21) - 40) + t.below(48) as usize,
+                1..=5 => 16_300 + t.below(220) as usize,
+                _ => 100 + t.below(40) as usize,
+            },
             _ => t.range(2, 1000) as usize,
         }
     };
